@@ -188,6 +188,7 @@ func suiteShimLife(e *vh.Env) {
 				for _, call := range []struct{ action, body string }{
 					{"data", `[{"id":"nope","msg":"x"}]`}, {"poll", `{"id":"nope"}`}, {"close", `{"id":"nope"}`},
 					{"data", `{not json`}, {"poll", `[1,2`}, {"close", `""`}, {"data", `[{"id":5}]`}, {"data", `[{"id":"` + s.id + `","msg":{"a":1}}]`},
+					{"data", `[null]`}, {"data", `[{"id":"nope","msg":"x"},null]`}, {"poll", `null`}, {"close", `null`},
 				} {
 					c, _ := shimCall(s.h, call.action, call.body, nil)
 					if c != 400 {
